@@ -90,7 +90,8 @@ pub fn gen_knobs(rng: &mut Rng, wide: bool) -> Knobs {
         0 => {
             // Writer::new(sink): only defaults are reachable through this constructor
             k = Knobs::default_knobs();
-            k.ctor = 1;
+            // 1: Writer::new(sink), 3: Writer::memory()
+            k.ctor = if rng.chance(2, 3) { 1 } else { 3 };
             k.fin = rng.below(2) as u8;
         }
         1 => k.ctor = 2,
